@@ -264,7 +264,9 @@ var ItemTerms = func() map[string]bool {
 		}
 	}
 	for i := 0; i < EpT.NumField(); i++ {
-		m[Term(EpT.Field(i))] = true
+		if EpT.Field(i).IsExported() {
+			m[Term(EpT.Field(i))] = true
+		}
 	}
 	return m
 }()
